@@ -77,6 +77,70 @@ func checkC12(c *Ctx) {
 	c12Rules(c, "R12.1", "R12.2", "R12.3", "R12.4", "R12.5")
 }
 
+// c12SinkOwnership: the sink of a BufferedWriteSyncer is written only through
+// its bufio.Writer, and that writer's pending bytes are never discarded.
+func c12SinkOwnership(c *Ctx, rule string) {
+	bws := c.Named(CorePath, "BufferedWriteSyncer")
+	if !c.Anchor(rule, "zapcore.BufferedWriteSyncer", bws != nil) {
+		return
+	}
+	var direct, discard []string
+	n := 0
+	c.EachRootFunc(func(fn *ssa.Function) {
+		for _, cl := range Calls(fn) {
+			args := Args(cl)
+			if len(args) == 0 {
+				continue
+			}
+			a0 := args[0]
+			fa, isFA := fieldOfNamed(a0, bws)
+			if !isFA {
+				continue
+			}
+			n++
+			f := CalleeFunc(cl)
+			if f == nil || f.Type().(*types.Signature).Recv() == nil {
+				continue // the field is passed as an argument (bufio.NewWriterSize(s.WS, n)), not called
+			}
+			switch {
+			case fa == "WS" && f.Name() != "Sync":
+				direct = append(direct, FuncKey(fn)+": "+Desc(a0)+"."+f.Name())
+			case fa == "writer" && (f.Name() == "Reset" || f.Name() == "ReadFrom"):
+				discard = append(discard, FuncKey(fn)+": "+Desc(a0)+"."+f.Name())
+			}
+		}
+	})
+	c.Check(len(direct) == 0 && n >= 4, rule, CorePath+".BufferedWriteSyncer", "sink-only-through-buffer", bws.Obj().Pos(), "of the wrapped WriteSyncer only Sync is called directly; every byte goes through the bufio.Writer, which keeps the order, turns short writes into errors and makes errors sticky (direct calls: %v; %d calls on WS/writer inspected)", direct, n)
+	c.Check(len(discard) == 0, rule, CorePath+".BufferedWriteSyncer", "buffer-never-discarded", bws.Obj().Pos(), "the bufio.Writer is never Reset (that would silently drop bytes already accepted): %v", discard)
+}
+
+// fieldOfNamed: v is (a load of) field F of a value of the named struct type; returns F.
+func fieldOfNamed(v ssa.Value, named *types.Named) (string, bool) {
+	v = Strip(v)
+	if u, ok := v.(*ssa.UnOp); ok && u.Op == token.MUL {
+		v = u.X
+	}
+	var x ssa.Value
+	var idx int
+	switch fa := v.(type) {
+	case *ssa.FieldAddr:
+		x, idx = fa.X, fa.Field
+	case *ssa.Field:
+		x, idx = fa.X, fa.Field
+	default:
+		return "", false
+	}
+	t := x.Type()
+	if p, ok := types.Unalias(t).Underlying().(*types.Pointer); ok {
+		t = p.Elem()
+	}
+	n, ok := types.Unalias(t).(*types.Named)
+	if !ok || n.Obj() != named.Obj() {
+		return "", false
+	}
+	return fieldName(x.Type(), idx), true
+}
+
 func c12Rules(c *Ctx, r1, r2, r3, r4, r5 string) {
 	bws := c.Named(CorePath, "BufferedWriteSyncer")
 	if !c.Anchor(r1, "zapcore.BufferedWriteSyncer", bws != nil) {
@@ -123,6 +187,7 @@ func c12Rules(c *Ctx, r1, r2, r3, r4, r5 string) {
 		}
 	}
 	if r2 != "" {
+		c12SinkOwnership(c, r2)
 		name := write.String()
 		p := writeParam(write)
 		var bw []*ssa.Call
